@@ -1,5 +1,6 @@
 SPECIFICATION Spec
 CONSTANTS MaxLen = 14
+EmitMod = 1
 Emit = TRUE
 Vocab <- VocabThorough
 INVARIANTS TypeOK EmitCase
